@@ -73,6 +73,7 @@ type Query struct {
 	Decls  *Decls
 	Vars   []string // model variables of interest
 	Slices []modelSlice
+	Only   []string // labels: try the proof from the QF context plus these facts first
 }
 
 // modelSlice is a []byte parameter as it was at function entry.
@@ -129,6 +130,7 @@ type Exec struct {
 	modelVars []string
 	entryAlloc *Term // allocation pointer at function entry
 	instSig    *types.Signature
+	curOnly    []string // labels of the facts the next obligation is to be proved from
 	returnOrds map[*ast.ReturnStmt]int
 	// byte-slice parameters at function entry (for projecting a model onto inputs)
 	modelSlices []modelSlice
@@ -161,6 +163,7 @@ type Exec struct {
 	prevState *State // state before the statement an `after` hook is attached to
 	clipped map[string]bool // slice terms known to have cap == len
 	hypTags map[*Term]string
+	assertTags map[*Term]string
 	contentStrings bool
 	quantDepth int
 	exitAfterHooks bool
@@ -734,7 +737,7 @@ func (ex *Exec) oblige(st *State, kind, anchor string, pos token.Pos, goal *Term
 		ob.Queries = append(ob.Queries, &Query{Hyps: append([]*Term(nil), st.pc...), Goal: tTrue, Decls: ex.D, Path: strings.Join(st.path, ">")})
 		return
 	}
-	ob.Queries = append(ob.Queries, &Query{Hyps: append([]*Term(nil), st.pc...), Goal: goal, Decls: ex.D, Path: strings.Join(st.path, ">"), Vars: ex.modelVars, Slices: ex.modelSlices})
+	ob.Queries = append(ob.Queries, &Query{Hyps: append([]*Term(nil), st.pc...), Goal: goal, Decls: ex.D, Path: strings.Join(st.path, ">"), Vars: ex.modelVars, Slices: ex.modelSlices, Only: ex.curOnly})
 }
 
 func (ex *Exec) obligeAST(kind, anchor string, pos token.Pos, ok bool, msg string, props []string) {
@@ -759,6 +762,20 @@ func (ex *Exec) obligeAST(kind, anchor string, pos token.Pos, ok bool, msg strin
 
 // tagHyp remembers which contract clause a hypothesis came from (used only to
 // select hypotheses when a query is retried with fewer of them).
+// tagAssert remembers which ghost assertion a fact came from (for
+// assert(..., "from"...) only; the own-clause strategy keeps asserted facts).
+func (ex *Exec) tagAssert(t *Term, label string) {
+	if ex.assertTags == nil {
+		ex.assertTags = map[*Term]string{}
+	}
+	ex.assertTags[t] = label
+	if t.Op == "and" {
+		for _, a := range t.Args {
+			ex.tagAssert(a, label)
+		}
+	}
+}
+
 func (ex *Exec) tagHyp(t *Term, label string) {
 	if ex.hypTags == nil {
 		ex.hypTags = map[*Term]string{}
